@@ -124,6 +124,9 @@ func genC05Layout(t *rapid.T, label string, steps []c01Step) c05Layout {
 	case "disk", "disk-merged", "disk-reopened", "disk-version":
 		l.Cfg = Config{Engine: EngScorchDisk}
 		GenScorchDiskOpts(t, label, &l.Cfg)
+		// unsafe batches return before they are persisted, so several in-memory segments
+		// pile up for one persister round (the multi-batch in-memory merge path)
+		l.Cfg.UnsafeBatch = rapid.Bool().Draw(t, label+".unsafe")
 		if kind == "disk-version" {
 			l.Cfg.SegVersion = rapid.SampledFrom([]int{11, 12, 13, 14, 15, 16, 17}).Draw(t, label+".segv")
 		}
